@@ -437,6 +437,28 @@ def scatter(o, idx, v, mode, interp):
     if hook is not None: return hook(o, idx, v, mode)
     raise Unsupported("array-index scatter without rule")
 
+
+# ---------------------------------------------------------------- dtype casts
+INTCAST_VEC = z3.Function("astype_int", VEC, VEC)            # integer cast of an opaque vector: the identity only for integer-valued vectors (nothing is assumed)
+TRUNC = z3.Function("trunc_to_int", z3.RealSort(), z3.IntSort())
+def astype(o, t):
+    """x.astype(dtype): identity on values that are already of that kind; a cast of REAL (float) data to an integer dtype is a genuine
+    operation (truncation), modelled by uninterpreted functions so that no proof can silently rely on it being the identity"""
+    integer = isinstance(t, str) and t.startswith(("int", "uint"))
+    if not integer: return o
+    def el(x):
+        if isinstance(x, bool) or (is_z3(x) and z3.is_bool(x)): return Ite(x, 1, 0) if is_z3(x) else int(x)
+        if isinstance(x, int) or (is_z3(x) and z3.is_int(x)): return x
+        if isinstance(x, float): return int(x)
+        if is_z3(x) and z3.is_real(x): return TRUNC(x)
+        return x
+    if isinstance(o, SArr):
+        if o.vec is not None:
+            lead = o.shape[:-1]
+            return vec_array(o.shape, lambda l: INTCAST_VEC(o.vec(tuple(l))))
+        return SArr(o.shape, lambda idx: el(o.get(idx)))
+    return el(o)
+
 # ---------------------------------------------------------------- attribute access on values
 def value_getattr(interp, o, a):
     B = _Builtin()
@@ -447,7 +469,7 @@ def value_getattr(interp, o, a):
         if a == "reshape": return B(lambda *sh: reshape(o, sh))
         if a == "dot": return B(lambda other: dot(o, other))
         if a == "clip": return B(lambda lo=None, hi=None: clip(o, lo, hi))
-        if a == "astype": return B(lambda t: o)
+        if a == "astype": return B(lambda t: astype(o, t))
         if a == "copy": return B(lambda: o)
         if a == "sum": return B(lambda axis=None: asum(o, axis))
         if a == "max": return B(lambda axis=None: amax(o, axis))
@@ -460,7 +482,7 @@ def value_getattr(interp, o, a):
         if a == "set": return B(o.set)
     if is_z3(o) or isinstance(o, (int, float)):
         if a == "clip": return B(lambda lo=None, hi=None: clip(o, lo, hi))
-        if a == "astype": return B(lambda t: o)
+        if a == "astype": return B(lambda t: astype(o, t))
         if a == "reshape": return B(lambda *sh: arr_from_list([o]))
         if a == "shape": return ()
         if a == "sum": return B(lambda axis=None: o)
